@@ -1,9 +1,9 @@
 CONSTANTS
   N = 2
-  MaxCmd = 2
+  MaxCmd = 1
   MaxVar = 1
-  NCtx = 0
-  HookKinds = {"none"}
+  NCtx = 1
+  HookKinds = {"none", "fail"}
 SPECIFICATION Spec
 INVARIANTS CommandsAfterDependencies StopsAtFailure FinalOK RunOnlyWhileStageRunning UpBeforeUse DownAfterAll OneUpAtATime
 PROPERTY Terminates
